@@ -29,6 +29,10 @@ type Spec struct {
 	Repeats bool
 	// any-scopes with Repeats: revisits allowed but not twice in a row (long walks)
 	NoStutter bool
+	// Prefix: fixed rings placed before the enumerated one (any-scopes): e.g. a fixed shell with an enumerated hole
+	Prefix [][]ref.P
+	// Explicit: a stated finite family of polygons instead of the free search (each is one state)
+	Explicit [][][]ref.P
 }
 
 // Window returns the lattice points of a w x h pixel window with sub steps per pixel.
@@ -199,10 +203,10 @@ func (wk *walker) anyRing(done [][]ref.P, r []ref.P, ringNo int) {
 		minK = 1
 	}
 	if len(r) >= minK {
-		wk.rings = append(append([][]ref.P{}, done...), r)
+		wk.rings = append(append(append([][]ref.P{}, wk.spec.Prefix...), done...), r)
 		wk.emit()
 		if ringNo < wk.spec.MaxHoles {
-			wk.anyRing(wk.rings, nil, ringNo+1)
+			wk.anyRing(wk.rings[len(wk.spec.Prefix):], nil, ringNo+1)
 		}
 	}
 	if len(r) == maxK {
@@ -230,6 +234,28 @@ func Enumerate(spec Spec, workers int, stop func() bool, visit func(w int, rings
 	if workers <= 0 {
 		workers = runtime.NumCPU()
 	}
+	if len(spec.Explicit) > 0 {
+		shardI, shardN := 0, 1
+		if v := os.Getenv("VERIF_SHARD"); v != "" {
+			fmt.Sscanf(v, "%d/%d", &shardI, &shardN)
+		}
+		var st Stats
+		st.States = 1
+		for i, rings := range spec.Explicit {
+			if i%shardN != shardI {
+				continue
+			}
+			if stop != nil && i&255 == 0 && stop() {
+				st.Aborted = true
+				break
+			}
+			st.States++
+			st.Transitions++
+			st.Inputs++
+			visit(0, rings)
+		}
+		return st
+	}
 	type job struct{ a, b int }
 	jobs := make(chan job, 256)
 	var total Stats
@@ -254,10 +280,10 @@ func Enumerate(spec Spec, workers int, stop func() bool, visit func(w int, rings
 					} else {
 						wk.st.States++
 						if spec.MinK <= 1 {
-							wk.rings = [][]ref.P{r}
+							wk.rings = append(append([][]ref.P{}, spec.Prefix...), r)
 							wk.emit()
 							if spec.MaxHoles > 0 {
-								wk.anyRing(wk.rings, nil, 1)
+								wk.anyRing(wk.rings[len(spec.Prefix):], nil, 1)
 							}
 						}
 					}
